@@ -463,6 +463,7 @@ class SignatureV4(Signature):
 
     def parse(self, packet):
         super(Signature, self).parse(packet)
+        start = len(packet)
         self.sigtype = packet[0]
         del packet[0]
 
@@ -477,7 +478,14 @@ class SignatureV4(Signature):
         self.hash2 = packet[:2]
         del packet[:2]
 
-        self.signature.parse(packet)
+        if isinstance(self.signature, OpaqueSignature):
+            # an algorithm without a signature class: keep exactly the rest of this packet (the version octet is already gone)
+            rest = (self.header.length - 1) - (start - len(packet))
+            self.signature.parse(packet[:rest])
+            del packet[:rest]
+
+        else:
+            self.signature.parse(packet)
 
 
 class SKESessionKey(VersionedPacket):
